@@ -6,6 +6,7 @@ import (
 	"io"
 	"io/fs"
 	"os"
+	"os/user"
 	"time"
 
 	"verifsim/choice"
@@ -94,9 +95,35 @@ func Getpid() int {
 	return os.Getpid()
 }
 func Getppid() int { use("pid"); return 1 }
-func Getuid() int  { use("uid"); return 1000 }
-func Geteuid() int { use("uid"); return 1000 }
-func Getgid() int  { use("uid"); return 1000 }
+
+// user and machine identity are derived from the run's simulated pid, so the clock/random/identity
+// twin of C08 moves them together with it
+func simID() int {
+	if cur != nil {
+		return cur.Pid
+	}
+	return 0
+}
+func Getuid() int  { use("uid"); return 1000 + simID()%7 }
+func Geteuid() int { use("uid"); return 1000 + simID()%7 }
+func Getgid() int  { use("uid"); return 1000 + simID()%5 }
+
+// NumCPU / GOMAXPROCS: the machine the tool runs on is not an input of the build
+func NumCPU() int { use("ncpu"); return 1 + simID()%16 }
+func GOMAXPROCS(n int) int {
+	use("ncpu")
+	return 1 + (simID()/3)%16
+}
+
+// UserCurrent stands in for os/user.Current
+func UserCurrent() (*user.User, error) {
+	use("uid")
+	name := Getenv("USER")
+	if name == "" {
+		name = fmt.Sprintf("u%d", Getuid())
+	}
+	return &user.User{Uid: fmt.Sprint(Getuid()), Gid: fmt.Sprint(Getgid()), Username: name, Name: name, HomeDir: Getenv("HOME")}, nil
+}
 func Hostname() (string, error) {
 	use("host")
 	if cur != nil {
